@@ -483,6 +483,12 @@ class Cluster:
                 if sid not in self.owner:
                     continue        # the client has gone: it cannot answer
                 info['acked'] = True
+                # (a client that got the event only because a membership
+                # change raced the in-flight message - it entered a room
+                # named like the addressed session id - may answer too, but
+                # the callback was registered for the addressed client: it
+                # is owed only to that client's acknowledgement)
+                info['acked_by_addressed'] = sid == info['to']
                 # acknowledgements without arguments, with falsy ones and
                 # with several
                 args = self.rng.choice([['ack', tok], ['ack', tok], [],
@@ -572,7 +578,8 @@ class Cluster:
                 if not info.get('acked') or args != info['ack_args']:
                     return self.fail('callback of emit %d got %r' % (tok,
                                                                       args))
-            if final and info.get('acked') and not fired:
+            if final and info.get('acked') and not fired and \
+                    info.get('acked_by_addressed'):
                 return self.fail('callback of emit %d was never invoked '
                                  'although the client acknowledged' % tok,
                                  {'emit': {k: v for k, v in info.items()
